@@ -43,6 +43,15 @@ theorem tie_C11_health_shape (cfg : Cfg) (s : St) :
       (puddleAcquireAllIdle s).2.foldl (Generated.Trans.Pool.healthOne cfg (puddleAcquireAllIdle s).1.now) (puddleAcquireAllIdle s).1 := rfl
 
 
+/-- `Pool.Do` / `Pool.Ping` go through a handle: acquire, run, release the HANDLE (`(*Client).Release`, translated above, with
+its closed-client / lifetime test); `Pool.Acquire` wraps the acquired resource in a handle.  Pinned as the statements stand:
+the pool model has no separate operation for them (they are `acquire · do · release`). -/
+theorem tie_C11_pool_do_ping :
+    Generated.Trans.Pool.poolDoBody = ["c, err := p.Acquire(ctx)", "if err != nil", "defer c.Release()", "return c.Do(ctx, q)"] ∧
+    Generated.Trans.Pool.poolPingBody = ["c, err := p.Acquire(ctx)", "if err != nil", "defer c.Release()", "return c.Ping(ctx)"] ∧
+    Generated.Trans.Pool.poolAcquireBody = ["res, err := p.pool.Acquire(ctx)", "if err != nil", "return res.Value().getConn(p, res), nil"] := by
+  decide
+
 /-! ### the whole health check: the translated loop = the `.health` step of the model -/
 
 def unheld (r : Res) : Res := { r with held := false }
